@@ -160,9 +160,9 @@ static sqf::runtime::runtime::result execute_do(sqf::runtime::runtime& runtime, 
         auto instruction = frame.current();
         if (runtime.configuration().max_runtime != std::chrono::milliseconds::zero() &&
 #ifdef SQFVM_RUNTIME_VERIF
-            runtime.configuration().max_runtime + runtime.runtime_timestamp() < sqf::verif::now())
+            runtime.configuration().max_runtime + runtime.run_timestamp() < sqf::verif::now())
 #else
-            runtime.configuration().max_runtime + runtime.runtime_timestamp() < std::chrono::system_clock::now())
+            runtime.configuration().max_runtime + runtime.run_timestamp() < std::chrono::system_clock::now())
 #endif // SQFVM_RUNTIME_VERIF
         {
 #ifdef DF__SQF_RUNTIME__ASSEMBLY_DEBUG_ON_EXECUTE
@@ -367,6 +367,8 @@ sqf::runtime::runtime::result sqf::runtime::runtime::execute(sqf::runtime::runti
             m_is_exit_requested = false;
             m_is_halt_requested = false;
             m_state = state::running;
+            // the maximum runtime applies to this run, not to the lifetime of the VM
+            m_run_timestamp = std::chrono::system_clock::now();
             while (!m_contexts.empty())
             {
                 for (size_t i = 0; i < m_contexts.size(); i++)
